@@ -154,7 +154,9 @@ pub(crate) fn cfgs(tier: Tier) -> Vec<Cfg> {
                         c = c.with("reorder_imports", "false");
                     }
                     out.push(c.clone());
-                    if thorough {
+                    // layout / indent / parser-edition variants on top of the reordering default of each
+                    // granularity (they do not interact with grouping)
+                    if thorough && group == "Preserve" && reorder == "true" {
                         for lay in ["Horizontal", "HorizontalVertical", "Vertical"] {
                             out.push(c.clone().with("imports_layout", lay));
                         }
